@@ -5,6 +5,7 @@
 mod util;
 mod c03;
 mod c12;
+mod c13;
 mod c16;
 mod lower;
 mod track;
@@ -25,6 +26,7 @@ fn main() {
         "c12-replay" => c12::replay(rest),
         "c12-record" => c12::record(rest),
         "lower" => lower::lower(rest),
+        "c13-eval" => c13::eval(rest),
         "c16-utf8" => c16::utf8(rest),
         "c16-views" => c16::views(rest),
         other => {
